@@ -315,7 +315,44 @@ fn members<T: Send + Sync + 'static>(w: &W<T>, n: usize) -> Box<[Arc<Source<i64>
 
 const SCAN_MOD: i64 = 1000003;
 
+/// `chain:<stage>/<stage>/…` (fields of a stage separated by `,`): `pipe!(puppets, stage₁, stage₂, …)` on the real crate
+fn run_chain(spec: &str, script: &str) -> Option<String> {
+    let stages: Vec<Vec<String>> = spec.split('/').map(|s| s.split(',').map(|x| x.to_string()).collect()).collect();
+    let first = stages.first()?.clone();
+    for st in &stages {
+        match st[0].as_str() {
+            "map" | "filter" | "scan" | "skip" | "take" | "merge" | "concat" => {},
+            _ => return None,
+        }
+    }
+    Some(run::<i64, i64>(script, fi, mki, 0, move |w| {
+        let num = |st: &Vec<String>, i: usize| -> i64 { st.get(i).and_then(|x| x.parse().ok()).unwrap_or(0) };
+        let mut cur: Arc<Source<i64>> = match first[0].as_str() {
+            "merge" => Arc::new(callbag::merge(members(w, num(&first, 1) as usize))),
+            "concat" => Arc::new(callbag::concat(members(w, num(&first, 1) as usize))),
+            _ => w.puppet(Some(0)),
+        };
+        let start = if matches!(first[0].as_str(), "merge" | "concat") { 1 } else { 0 };
+        for st in &stages[start..] {
+            let (a, b) = (num(st, 2), num(st, 3));
+            cur = match (st[0].as_str(), st.get(1).map(|x| x.as_str())) {
+                ("map", Some("add")) => Arc::new(map(move |x: i64| x + a)(cur)),
+                ("map", Some("mul")) => Arc::new(map(move |x: i64| x * a)(cur)),
+                ("filter", _) => Arc::new(filter(move |x: &i64| x.rem_euclid(a) == b)(cur)),
+                ("scan", _) => Arc::new(scan(move |acc: i64, x: i64| (acc * a + x).rem_euclid(SCAN_MOD), b)(cur)),
+                ("skip", _) => Arc::new(skip(num(st, 1) as usize)(cur)),
+                ("take", _) => Arc::new(take(num(st, 1) as usize)(cur)),
+                _ => cur,
+            };
+        }
+        subscribe_to(cur)
+    }))
+}
+
 pub fn run_inst(inst: &str, script: &str) -> Option<String> {
+    if let Some(spec) = inst.strip_prefix("chain:") {
+        return run_chain(spec, script);
+    }
     let parts: Vec<&str> = inst.split(':').collect();
     let num = |i: usize| -> Option<i64> { parts.get(i)?.parse().ok() };
     Some(match parts[0] {
